@@ -2,6 +2,7 @@ package main
 
 import (
 	"go/ast"
+	"go/token"
 	"go/types"
 )
 
@@ -85,6 +86,97 @@ func (c *Ctx) runBuiltinDirection(r *Report, rule string, inPkg func(string) boo
 			return true
 		})
 	}
+	// comparison form: `x == ir.BuiltinSampleMask` (or Position) inside a condition of a function
+	// that has a direction parameter: the condition must mention that parameter
+	for _, fn := range c.allFuncs() {
+		if !inPkg(fn.Pkg.Rel) || fn.Obj == nil || fn.Decl.Body == nil {
+			continue
+		}
+		sig := fn.Obj.Type().(*types.Signature)
+		var dir *types.Var
+		for i := 0; i < sig.Params().Len(); i++ {
+			p := sig.Params().At(i)
+			if b, ok := p.Type().Underlying().(*types.Basic); ok && b.Kind() == types.Bool && (p.Name() == "isOutput" || p.Name() == "output" || p.Name() == "isInput") {
+				dir = p
+			}
+		}
+		if dir == nil {
+			continue
+		}
+		info := fn.Pkg.Info
+		ord := 0
+		// the direction and what is computed from it
+		dirs := map[types.Object]bool{dir: true}
+		for pass := 0; pass < 2; pass++ {
+			ast.Inspect(fn.Decl.Body, func(m ast.Node) bool {
+				as, ok := m.(*ast.AssignStmt)
+				if !ok || len(as.Lhs) != 1 || len(as.Rhs) != 1 {
+					return true
+				}
+				if id, ok := as.Lhs[0].(*ast.Ident); ok && mentionsObjs(info, as.Rhs[0], dirs) {
+					dirs[info.ObjectOf(id)] = true
+				}
+				return true
+			})
+		}
+		ast.Inspect(fn.Decl.Body, func(m ast.Node) bool {
+			is, ok := m.(*ast.IfStmt)
+			if !ok {
+				return true
+			}
+			which := ""
+			ast.Inspect(is.Cond, func(k ast.Node) bool {
+				be, ok := k.(*ast.BinaryExpr)
+				if !ok || be.Op != token.EQL {
+					return true
+				}
+				for _, e := range []ast.Expr{be.X, be.Y} {
+					if name := irConstNameAny(info, e); twoWay[name] {
+						which = name
+					}
+				}
+				return true
+			})
+			if which == "" {
+				return true
+			}
+			ord++
+			n++
+			cons := fn.id() + ":if:" + which + "#" + itoa(ord)
+			mentions := false
+			ast.Inspect(is.Cond, func(k ast.Node) bool {
+				if id, ok := k.(*ast.Ident); ok && dirs[info.ObjectOf(id)] {
+					mentions = true
+				}
+				return true
+			})
+			// the direction may have been tested by an enclosing if
+			if !mentions {
+				ast.Inspect(fn.Decl.Body, func(k ast.Node) bool {
+					outer, ok := k.(*ast.IfStmt)
+					if !ok || outer == is || !(outer.Body.Pos() <= is.Pos() && is.End() <= outer.Body.End()) {
+						return true
+					}
+					ast.Inspect(outer.Cond, func(q ast.Node) bool {
+						if id, ok := q.(*ast.Ident); ok && dirs[info.ObjectOf(id)] {
+							mentions = true
+						}
+						return true
+					})
+					return true
+				})
+			}
+			switch {
+			case mentions:
+				r.ok(rule, cons, c.pos(is.Pos()), "")
+			case builtinDirExceptions[cons] != "":
+				r.exc(rule, cons, c.pos(is.Pos()), builtinDirExceptions[cons])
+			default:
+				r.viol(rule, cons, c.pos(is.Pos()), fn.id()+" is told the direction ("+dir.Name()+") but decides about "+which+" without it; WGSL uses this built-in as an input and as an output")
+			}
+			return true
+		})
+	}
 	r.inst(rule, n)
 }
 
@@ -96,4 +188,8 @@ func init() {
 			println(o.Verdict, o.Construct, o.Pos)
 		}
 	}
+}
+
+var builtinDirExceptions = map[string]string{
+	"dxil/internal/emit.makeSigInfo:if:BuiltinPosition#1": "the component type and width of SV_Position (float4) are the same for the vertex output and the fragment input",
 }
